@@ -239,6 +239,104 @@ def oracle_timepar_field(cls, par, form, tok, u, sdt, pu, route, probe=False, si
     return None
 
 
+# ---------------------------------------------------------------------------
+# correspondence: TimePar.set / constructor / unit table vs Model/ParsTime.lean over the regenerated facts
+
+def render_unit(u):
+    if u is None: return '-'
+    if callable(u): return f'<fn:{u.__name__}>'
+    if isinstance(u, str): return u
+    return f'<{type(u).__name__}:{u!r}>'
+
+
+def show_tp(tp):
+    return f"ok {int(round(tp.v * 4096))} {render_unit(tp.unit)} {render_unit(tp.parent_unit)} {'-' if tp.parent_dt is None else int(tp.parent_dt)} {'-' if tp.self_dt is None else int(tp.self_dt)}"
+
+
+def live_err(e):
+    import sciris as sc
+    if isinstance(e, KeyError): return 'E:KeyNotFound'      # sc.KeyNotFoundError for a str key of time_units, plain KeyError for a function key
+    if isinstance(e, ValueError): return 'E:Value'
+    if isinstance(e, TypeError): return 'E:Type'
+    return 'E:Other:' + type(e).__name__
+
+
+def round5_cases(ctx, ask):
+    import starsim as ss
+    B = _B()
+    B.quiet()
+    facts = (ctx.extracted.get('ParsTimePar') or {}).get('facts') or {}
+    ctx.notes['timepar_set_steps'] = facts.get('set_steps')
+    # the regenerated table vs the live mapping and vs the documented table frozen in this file
+    live = {render_unit(k): render_unit(v) for k, v in ss.time.unit_mapping.items()}
+    doc = {n: c for n, c in DOC_CANON.items()}; doc.update({f'<fn:{n}>': c for n, c in DOC_FN_UNITS.items()}); doc['-'] = '-'
+    if live != doc:
+        diff = sorted(set(live.items()) ^ set(doc.items()))[:6]
+        ctx.broke('correspondence', 'C17.unit-table', f'live ss.time.unit_mapping differs from the documented table frozen in the harness: {diff}',
+                  data=dict(kind='timepar-field', cls='SIS', probe=False, par='waning', form='list2', tok=20, u=str(diff[0][0]), sdt=2.0, pu='day', route='ctor'))
+    if dict(ss.time.time_units) != DOC_LENGTH:
+        ctx.broke('correspondence', 'C17.time-units', f'ss.time_units {dict(ss.time.time_units)} differs from the documented unit lengths {DOC_LENGTH}')
+    units = sorted(DOC_CANON) + [getattr(ss, n) for n in sorted(DOC_FN_UNITS)] + [None]
+    junk = [x for x in NOT_UNITS + [gen_not_unit(ctx.rng) for _ in range(6)] if not isinstance(x, str) or (x and ' ' not in x)] + NON_STRINGS
+    for u in units + junk:
+        try: impl = 'ok ' + render_unit(ss.time.unit_mapping[u])
+        except KeyError: impl = 'E:Key'
+
+        def cb(ml, impl=impl, u=u):
+            ctx.count('r5_unitlookup')
+            if ml[0] != impl:
+                ctx.broke('correspondence', 'C17.unit-table', f'unit_mapping[{u!r}]: impl={impl} model={ml[0]}')
+        ask([f'unitlookup {render_unit(u)}'], cb)
+    classes = [ss.dur, ss.rate, ss.time_prob, ss.rate_prob, ss.beta]
+    n = 0
+    for tpcls in classes:
+        for state in ('fresh', 'fresh-unit', 'live', 'live-same'):
+            for u in units + junk:
+                for field in ('unit', 'parent_unit'):
+                    n += 1
+                    form = ('list', 'dict', 'dict-force')[n % 3] if state.startswith('fresh') or n % 5 else 'dict-force'
+                    if form == 'dict-force' and n % 4: form = 'dict'
+                    ov = ctx.rng.randint(1, 3000); v = ctx.rng.randint(1, 3000); sdt = ctx.rng.choice([None, 1, 2])
+                    give_v = ctx.rng.random() < 0.7
+                    old = tpcls(ov / 4096.0, unit={'fresh': None, 'fresh-unit': 'day', 'live': 'day', 'live-same': 'year'}[state])
+                    if state.startswith('live'): old.init(parent_unit='year', parent_dt=1.0)
+                    before = f"{int(old.initialized)} {ov} {render_unit(old.unit)} {render_unit(old.parent_unit)} {'-' if old.parent_dt is None else int(old.parent_dt)} {'-' if old.self_dt is None else int(old.self_dt)}"
+                    a = dict(v=v / 4096.0 if give_v else None, unit=u if field == 'unit' else None, parent_unit=u if field == 'parent_unit' else None,
+                             parent_dt=None, self_dt=float(sdt) if sdt else None)
+                    try:
+                        if form == 'list': old.set(*[a['v'], a['unit'], a['parent_unit'], a['parent_dt'], a['self_dt']])
+                        else: old.set(**{k: x for k, x in a.items() if x is not None}, **(dict(force=True) if form == 'dict-force' else {}))
+                        impl = show_tp(old)
+                    except Exception as e:
+                        impl = live_err(e)
+                    line = (f"tpset {before} | {v if give_v else '-'} {render_unit(a['unit'])} {render_unit(a['parent_unit'])} - {sdt if sdt else '-'} "
+                            f"{1 if form == 'dict-force' else 0}")
+
+                    def cb(ml, impl=impl, line=line, tpcls=tpcls, state=state, u=u, field=field, form=form):
+                        ctx.case(('tpset', tpcls.__name__, state, render_unit(u), field, form), True,
+                                 sample=dict(kind='timepar-set', line=line, impl=impl, model=ml[0]) if ctx.rng.random() < 0.01 else None)
+                        ctx.count('r5_tpset')
+                        same_verdict = ml[0] == impl or (state.startswith('live') and ml[0].startswith('E:') and impl.startswith('E:'))
+                        # (on a live parameter the cached factor is recomputed with the raw value first: WHICH error time_units[...] gives
+                        #  for a non-name - KeyNotFound / IndexError / TypeError for str / int / float keys of an objdict - is incidental)
+                        if not same_verdict and len([b for b in ctx.broken if b['name'] == 'C17.timepar-set']) < 6:
+                            ctx.broke('correspondence', 'C17.timepar-set', f'{tpcls.__name__}.set [{state}, {form}] `{line}`: impl={impl} model={ml[0]}',
+                                      data=dict(kind='timepar-field', cls='SIS', probe=False, par='waning', form='dict-vu' if field == 'unit' else 'dict-pu', tok=20,
+                                                u=enc_unit(u), sdt=2.0, pu='day', route='ctor'))
+                    ask([line], cb)
+                # the constructor
+                v = ctx.rng.randint(1, 3000)
+                try: impl = show_tp(tpcls(v / 4096.0, unit=u, self_dt=2.0))
+                except Exception as e: impl = live_err(e)
+
+                def cb2(ml, impl=impl, u=u, tpcls=tpcls):
+                    ctx.count('r5_tpctor')
+                    if ml[0] != impl and len([b for b in ctx.broken if b['name'] == 'C17.timepar-ctor']) < 4:
+                        ctx.broke('correspondence', 'C17.timepar-ctor', f'{tpcls.__name__}(v, unit={u!r}, self_dt=2): impl={impl} model={ml[0]}')
+                if state == 'fresh':
+                    ask([f"tpctor {v} {render_unit(u)} - - 2"], cb2)
+
+
 def round5_search(ctx, targets):
     B = _B()
     B.quiet()
